@@ -79,7 +79,19 @@ def build(case, with_mapping=True):
     d1 = np.empty((*n, k, nd))
     d2 = np.empty((*n, k, nd))
     for c in range(k):
-        p, a1, a2 = poly_eval(case["coef"][c], grids)
+        coef = list(case["coef"][c])
+        if case.get("zero_periodic"):
+            # polynomial made constant along periodic axes (it stays exactly differentiable on the ring)
+            per = [d for d in range(nd) if dims[d] in case["bc"]]
+            pos = 1 + nd
+            for d in range(nd):
+                if d in per:
+                    coef[1 + d] = 0
+                for e in range(d, nd):
+                    if d in per or e in per:
+                        coef[pos] = 0
+                    pos += 1
+        p, a1, a2 = poly_eval(coef, grids)
         arr[..., c] = p
         for d in range(nd):
             d1[..., c, d] = a1[d] / float(mesh.cell[d])
@@ -347,6 +359,9 @@ SUBS = [
         thorough=400),
     Sub("analytic", check_analytic, vec_case(nmin=3, full_valid=True, bc_ok=False).map(lambda c: dict(c, data="poly")),
         nontrivial=nontrivial, quick=250, thorough=1500),
+    Sub("analytic-partly-periodic", check_analytic,
+        vec_case(nmin=3, full_valid=True, bc_ok=True, ndim=(2, 4)).map(lambda c: dict(c, data="poly", zero_periodic=True)),
+        nontrivial=nontrivial, quick=200, thorough=1200),
     Sub("analytic-scalar", check_analytic,
         vec_case(nmin=3, nvdim=1, full_valid=True, bc_ok=False).map(lambda c: dict(c, data="poly")),
         nontrivial=nontrivial, quick=120, thorough=800),
